@@ -1,3 +1,4 @@
+import Proofs.MatchSound
 import Proofs.Rules
 import Proofs.Settle
 /-! Property theorems of C06 live in the imported files; the list audited on every run is in harness/props/c06.py. -/
